@@ -18,7 +18,7 @@ RULE = (
     "point or one assembly order; distinct = (n, n_chunks[, order]); non-trivial = at least one pair (n>=2)"
 )
 ASSUMPTIONS = ["thetas in the assembly workload are harness stubs with prescribed predictions plus real sparse-combo samples"]
-REQUIRED = {"many_experiment_matrices": {"quick": 1, "thorough": 1}, "chunked_large_matrices_n_257": {"quick": 1, "thorough": 1}, "assemblies_by_random_bracketing": {"quick": 60, "thorough": 800}, "cli_score_assemblies": {"quick": 8, "thorough": 60}, "chunk_files_overwritten": {"quick": 200, "thorough": 3000}, "partition_grid_points": {"quick": 500, "thorough": 1800}, "assemblies_checked": {"quick": 150, "thorough": 2000}, "refusals_checked": {"quick": 50, "thorough": 500}, "large_matrix_roundtrips": {"quick": 8, "thorough": 80}, "cli_matrices_checked": {"quick": 6, "thorough": 50}}
+REQUIRED = {"chunks_asked_again_after_the_caller_changed_its_list": {"quick": 200, "thorough": 2000}, "many_experiment_matrices": {"quick": 1, "thorough": 1}, "chunked_large_matrices_n_257": {"quick": 1, "thorough": 1}, "assemblies_by_random_bracketing": {"quick": 60, "thorough": 800}, "cli_score_assemblies": {"quick": 8, "thorough": 60}, "chunk_files_overwritten": {"quick": 200, "thorough": 3000}, "partition_grid_points": {"quick": 500, "thorough": 1800}, "assemblies_checked": {"quick": 150, "thorough": 2000}, "refusals_checked": {"quick": 50, "thorough": 500}, "large_matrix_roundtrips": {"quick": 8, "thorough": 80}, "cli_matrices_checked": {"quick": 6, "thorough": 50}}
 N_EXH = {"quick": 14, "thorough": 22}  # grid sizes 548 / 1900 points
 
 
@@ -40,6 +40,24 @@ def check_partition(rec, DC, n, n_chunks):
     rec.check(all(i > j and 0 <= j and i < n for i, j in flat), "C07/partition/not-lower-triangular", "pair outside i>j", w)
     sizes = [len(c) for c in chunks]
     rec.check(max(sizes) - min(sizes) <= 1, "C07/partition/unbalanced", lambda: "chunk sizes %r for n=%d n_chunks=%d" % (sizes, n, n_chunks), w)
+    if total <= 600:
+        # what a caller gets is its own: it may extend, shuffle or empty the list (to schedule retries, say) and ask
+        # again, with positional or keyword arguments - the answer is the same chunk
+        c = n_chunks // 2
+        for spelled in ("positional", "keywords"):
+            ask = (lambda: DC.get_lower_triangular_indices_chunk(n, c, n_chunks)) if spelled == "positional" else (lambda: DC.get_lower_triangular_indices_chunk(n=n, chunk_index=c, n_chunks=n_chunks))
+            try:
+                first = ask()
+                if isinstance(first, list):
+                    first.extend([(0, 0), (n, n)])
+                    first.reverse()
+                    del first[: len(first) // 2]
+                again = [tuple(int(v) for v in x) for x in ask()]
+            except Exception as e:
+                rec.violation("C07/partition/raises", "chunk(n=%d,index=%d,n_chunks=%d) asked twice (%s) raised %r" % (n, c, n_chunks, spelled, e), w)
+                break
+            rec.count("chunks_asked_again_after_the_caller_changed_its_list")
+            rec.check(again == chunks[c], "C07/partition/answer-depends-on-earlier-callers", lambda: "chunk %d of %d for n=%d asked again (%s) after the caller changed the list it had received: %d pairs, %d before" % (c, n_chunks, n, spelled, len(again), len(chunks[c])), w)
     return chunks
 
 
